@@ -428,6 +428,30 @@ func budget(n *node, predFail func(*node) bool) uint64 {
 	return after
 }
 
+// budgetTamed is budget() with a bound on what an endless loop can burn: a failing child that receives "all gas"
+// multiplies the budget of everything above it, and a few of them in one tree give budgets of 10^13 gas, which
+// a JUMPDEST/JUMP loop needs hours to exhaust. In such trees the loop leaves run out of gas through an
+// impossible memory offset instead (same outcome class, no iterations).
+const loopGasCap = 500_000_000
+
+func budgetTamed(tree *node, predFail func(*node) bool) uint64 {
+	need := budget(tree, predFail)
+	if need <= loopGasCap {
+		return need
+	}
+	changed := false
+	tree.walk(func(n *node) {
+		if n.out == oOOGLoop {
+			n.out = oOOGMem
+			changed = true
+		}
+	})
+	if changed {
+		need = budget(tree, predFail)
+	}
+	return need
+}
+
 // ---------- compiler ----------
 
 // guardDeposit is set iff F-C12-b is listed as known.
